@@ -323,7 +323,7 @@ def execute_plain(plan, scratch):
     if sim.diskfault is not None:
         d = sim.diskfault
         hist['disk'] = {'fired': d['fired'], 'seq': d['seq'], 'op': d['op'], 'path': d['path'], 'n': d['nth'],
-                        'in_sandbox': bool(d.get('in_sandbox')),
+                        'in_sandbox': bool(d.get('in_sandbox')), 'cwd_gone': bool(d.get('cwd_gone')),
                         'ops': [list(o) for o in d['ops']]}
     c01._annotate(plan, hist)
     _probes(plan, hist)
